@@ -19,7 +19,11 @@ MkTree(par) ==
                       [] site = "defsite" -> <<BlockS(f \o "b1site", "b1", <<>>, NoE, <<T(f \o ":b1site")>>)>>
                       [] site = "inrange" -> <<RangeS("rg", "none", "", "", "", ListE("slice", <<"e1", "e2">>), <<YieldS("y1", "b1", <<>>, NoE)>>)>>
                       [] site = "inblock" -> <<BlockS(f \o "wrapd", "wrap", <<>>, NoE, <<T("w("), YieldS("y1", "b1", <<>>, NoE), T(")")>>)>>
-                      [] site = "incontent" -> <<YieldC("yw", "b2", <<>>, NoE, <<YieldS("y1", "b1", <<>>, NoE)>>)>>)
+                      [] site = "incontent" -> <<YieldC("yw", "b2", <<>>, NoE, <<YieldS("y1", "b1", <<>>, NoE)>>)>>
+                      \* rendering another template that has blocks of the same names leaves the caller's block table alone
+                      [] site = "afterincif"   -> <<IncIf("ii", "i3"), YieldS("y1", "b1", <<>>, NoE)>>
+                      [] site = "afterinclude" -> <<Incl("ii", "i3"), YieldS("y1", "b1", <<>>, NoE)>>
+                      [] site = "afterexec"    -> <<ExecLet("ii", "r", "i3"), YieldS("y1", "b1", <<>>, NoE)>>)
                    \o <<YieldS("y2", "b2", <<>>, NoE), T(f \o ":end")>>
       body(f) == IF f = rootname THEN defs(f) \o layout(f) ELSE <<T(f \o ":junk")>> \o defs(f) \o <<T(f \o ":junk2")>>
       imps(f) == IF f = "leaf" THEN SubSeq(<<"i1", "i2">>, 1, nimp) ELSE IF f = "mid" /\ nimp = 2 THEN <<"i3">> ELSE <<>>
@@ -43,9 +47,12 @@ MkParams(par) ==
 
 \* content: supplied by the caller / the block's default / absent; content in content; content sees the caller's scope
 MkContent(par) ==
-  LET ck == par[2]  nest == par[3]
+  LET ck == par[2]  nest == par[3]  tryfail == par[4]
+      \* a yield with content that fails inside a try in the block: the caller's content is still the one rendered after it
+      failing == IF tryfail THEN <<TryS("bt", <<YieldC("yf", "bfail", <<>>, NoE, <<T("INNER")>>)>>)>> ELSE <<>>
+      bfail == BlockS("bfd", "bfail", <<>>, NoE, <<T("bf("), YContent("bfy"), P("bff", FailE), T(")")>>)
       blk  == BlockC("bcd", "bc", <<Par("p", Lit("dp"))>>, NoE,
-                     <<LetS("bl", "s", Lit("blocal")), T("<"), YContent("byc"), T("|"), YContentCx("byc2", Lit("cx2")), T(">")>>,
+                     <<LetS("bl", "s", Lit("blocal")), T("<")>> \o failing \o <<YContent("byc"), T("|"), YContentCx("byc2", Lit("cx2")), T(">")>>,
                      <<T("defcontent"), P("dcs", IsSetE("s"))>>)
       inner == IF nest THEN <<YieldC("yin", "bc", <<Par("p", Lit("p2"))>>, NoE, <<P("ins", Var("s")), P("inp", Var("p")), P("inctx", Ctx)>>)>> ELSE <<>>
       cbody == <<P("cs", Var("s")), P("cp", IsSetE("p")), P("cctx", Ctx)>> \o inner
@@ -53,8 +60,9 @@ MkContent(par) ==
                 [] ck = "none"    -> YieldS("yc", "bc", <<>>, NoE)
                 [] ck = "defsite" -> blk
       main == <<LetS("ls", "s", Lit("s0")), T("pre"), y, P("zs", Var("s")), T("post")>>
-  IN [ts |-> <<Tm("leaf", "", <<"lib">>, main), Tm("lib", "", <<>>, IF ck = "defsite" THEN <<>> ELSE <<blk>>)>>,
-      globals |-> NoVarsMap, runs |-> <<RunR("leaf", NoVarsMap, "D")>>, tag |-> "content|" \o ck \o (IF nest THEN "|nest" ELSE "")]
+  IN [ts |-> <<Tm("leaf", "", <<"lib">>, main), Tm("lib", "", <<>>, (IF ck = "defsite" THEN <<>> ELSE <<blk>>) \o <<bfail>>)>>,
+      globals |-> NoVarsMap, runs |-> <<RunR("leaf", NoVarsMap, "D")>>,
+      tag |-> "content|" \o ck \o (IF nest THEN "|nest" ELSE "") \o (IF tryfail THEN "|tryfail" ELSE "")]
 
 \* two entry templates sharing an imported library: parsing one must not change what the other renders
 MkShared(par) ==
@@ -92,9 +100,9 @@ MkC(par) == CASE par[1] = "alias" -> MkAlias(par) [] par[1] = "shared" -> MkShar
 
 FileSet == {"leaf", "mid", "root", "i1", "i2", "i3"}
 cParams == ({"tree"} \X (0..2) \X (0..2) \X (SUBSET FileSet) \X {{}, {"leaf"}, {"root"}, {"i2", "mid"}} \X
-              {"yield", "defsite", "inrange", "inblock", "incontent"})
+              {"yield", "defsite", "inrange", "inblock", "incontent", "afterincif", "afterinclude", "afterexec"})
       \cup ({"params"} \X Perms({"a", "b", "c"}) \X {"import", "extends"})
       \cup ({"shared"} \X {"ab", "ba"} \X BOOLEAN)
       \cup ({"alias"} \X (1..4))
-      \cup ({"content"} \X {"caller", "none", "defsite"} \X BOOLEAN)
+      \cup ({"content"} \X {"caller", "none", "defsite"} \X BOOLEAN \X BOOLEAN)
 =============================================================================
